@@ -17,6 +17,7 @@ package coins
 //@ func (*Coins).GetCoin
 //@   trusted
 //@   ensures (result != nil) <==> (id == 0 || coinExists(c, id))
+//@   ensures result != nil ==> coinIDOf(result) == id
 //@   modifies coinsCache
 
 //@ # ASSUMED effect summaries (to be replaced by proofs against the model fields)
